@@ -10,12 +10,11 @@ SOURCES = ['src/opus_private.h', 'celt/arch.h', 'celt/float_cast.h', 'celt/matho
            'celt/x86/x86cpu.c']
 REQUIRED_THEOREMS = ['OpusProps.C13.' + t for t in (
     'inputs_coincide', 'encode_formats_agree', 'in24_exact', 'rne_nearest_even', 'out24_spec', 'out16_spec',
-    'sat16_range', 'views_roundtrip', 'proj16_saturates', 'proj16_tracks')]
-UNPROVED = ['projection, relation to the FLOAT output (rest of design priority P1): proj16_tracks bounds the 16-bit output '
-            'against the exact matrix product of the 16-bit stream samples (half an LSB per column); the further half LSB per '
-            'column for RES2INT16 of each stream sample and the rounding of the float path '
-            '(mapping_matrix_multiply_channel_out_float accumulates in binary32) are not proved; the end-to-end bound '
-            '|int16 - 32768*float| <= columns + 0.5 is searched on the implementation (S4 mode proj)',
+    'sat16_range', 'views_roundtrip', 'proj16_saturates', 'proj16_tracks', 'proj16_tracks_float')]
+UNPROVED = ['projection: the accumulated binary32 rounding of the float path itself (distance of projOutF, which is modelled '
+            'bit-exactly and tied to mapping_matrix_multiply_channel_out_float, from the exact product sumExactF) is not '
+            'bounded by a theorem; proj16_tracks_float bounds the 16-bit output against the exact product (one LSB per '
+            'column); the end-to-end bound |int16 - 32768*float| <= columns + 0.5 is searched on the implementation (S4 proj)',
             'that the shared core is a function of exactly the arguments the model passes (opus_res samples, effective '
             'lsb_depth, analysis samples through the down-mix callback) and of the encoder state: this is the '
             'determinism property C12; here it is a structural fact of opus_encode_native\'s signature, and the S4 twin-'
@@ -105,6 +104,8 @@ def classify(ctx, tie, mm):
         'decf': 'opus_decode_float: flags handed to opus_decode_native differ (no soft clip, output written in place)',
         'proj': 'mapping_matrix_multiply_channel_out_short (projection 16-bit output) differs from the saturating sum of the '
                 'rounded Q15 products proved never to leave the int16 range',
+        'projf': 'mapping_matrix_multiply_channel_out_float (projection float output) differs from the bit-exact model of '
+                 '`tmp = (1/32768.f)*cell*v; out += tmp`',
         'f2i16': 'celt_float2int16 (the 16-bit output conversion of opus_decode) differs from '
                  'saturate(round-half-even(32768*v)) on some element of this array',
     }.get(op, 'conversion differs from the proved specification')
